@@ -574,3 +574,94 @@ def r12_tvpi_ghosts(ctx):
 
 
 RULES += [r12_tvpi_ghosts]
+
+
+# ------------------------------------------------------------------ disequations with non-unit coefficients
+def r13_exact_quotient(ctx):
+    ctx.rule("C03.r13", "disequations c*x != r: the quotient Q = r / c (a ROUNDING interval division) is used to exclude values of x "
+             "(trim_interval, add_univar_disequation) only where `Q * c == r` has been established - 2*x != 5 excludes no integer, "
+             "and e < 0 is rewritten into e <= 0 and e != 0, so strict inequalities depend on it too", floor=4)
+    from .. import paths as _p
+    SITES = (("include/crab/domains/linear_interval_solver.hpp", "propagate"),
+             ("include/crab/domains/split_dbm.hpp", "add_disequation"),
+             ("include/crab/domains/sparse_dbm.hpp", "add_disequation"),
+             ("include/crab/domains/split_oct.hpp", "add_disequation"))
+    from ..match import guard_truth, writes_to, cmp_parts, resolve_local
+    n = 0
+    seen = set()
+    for f, name in SITES:
+        if not ctx.db.has_file(f):
+            continue
+        for fn in ctx.db.fns(f, name=name):
+            k = (f, fn.get("pk"))
+            body = fn["body"]
+            d = local_decls(body)
+            g = _p.guards(body)
+            # quotients: locals initialised / assigned with an interval division
+            quot = {}
+            for dd in d.values():
+                srcs = ([dd["i"]] if "i" in dd else []) + [w for w in writes_to(body, dd["id"])]
+                for e in srcs:
+                    for c in walk(e):
+                        if c.get("k") == "call" and c.get("op") == "/" and "o" in c and c.get("a"):
+                            quot[dd["id"]] = c
+            if not quot:
+                continue
+
+            def is_exact_cmp(x, quot=quot):
+                p = cmp_parts(x)
+                if not p or p[0] != "==":
+                    return False
+                for a, b in ((p[1], p[2]), (p[2], p[1])):
+                    a = strip(a)
+                    if isinstance(a, dict) and a.get("k") == "call" and a.get("op") == "*":
+                        ops = [strip(a.get("o"))] + [strip(y) for y in a.get("a", [])]
+                        if any(isinstance(o, dict) and o.get("k") == "ref" and o.get("id") in quot for o in ops):
+                            return True
+                return False
+
+            def atom(c, d=d, body=body):
+                c0 = strip(c)
+                if is_exact_cmp(c0):
+                    return 1
+                if isinstance(c0, dict) and c0.get("k") == "ref" and c0.get("rk") == "local":
+                    dd = d.get(c0.get("id")) or {}
+                    ws = writes_to(body, c0["id"])
+                    vals = ([dd["i"]] if "i" in dd else []) + [w.get("R") if w.get("k") == "asg" else (w.get("a") or [None])[0] for w in ws]
+                    if vals and all((isinstance(strip(v), dict) and strip(v).get("k") == "lit" and strip(v).get("v") == "false") or
+                                    any(is_exact_cmp(y) for y in walk(v)) for v in vals if v is not None):
+                        if any(any(is_exact_cmp(y) for y in walk(v)) for v in vals if v is not None):
+                            return 1
+                return 0
+            for c in walk(body):
+                if not (c.get("k") == "call" and callee(c) and callee(c)["name"] in ("trim_interval", "add_univar_disequation",
+                                                                                    "inequalities_from_disequation")):
+                    continue
+                # does an argument derive from a quotient (directly, or through `auto k = Q.singleton()`)?
+                def from_quot(e, depth=0):
+                    for y in walk(e):
+                        if y.get("k") == "ref" and y.get("id") in quot:
+                            return True
+                        if y.get("k") == "ref" and y.get("rk") == "local" and depth < 3:
+                            dd = d.get(y.get("id")) or {}
+                            if "i" in dd and from_quot(dd["i"], depth + 1):
+                                return True
+                    return False
+                if not any(from_quot(a) for a in c.get("a", [])):
+                    continue
+                if (k, c.get("l")) in seen:
+                    continue
+                seen.add((k, c.get("l")))
+                n += 1
+                if guard_truth(g.get(id(c), ()), atom, body) is True:
+                    ctx.ok("%s: quotient used to exclude a value only when exact" % name, fn, c)
+                else:
+                    ctx.bad("%s::%s excludes the quotient of a rounding division from the values of the pivot without having checked that "
+                            "coefficient * quotient is the residual: x in [2,10]; assume(2*x != 5) gives [3,10] (and assume(2*x < 5) "
+                            "with x in [0,10] gives [0,1])" % ((fn.get("cpk") or "").split("::")[-1], name), fn, c,
+                            sig="inexact-quotient-excluded:%s" % name)
+    if n == 0:
+        ctx.fail("rule C03.r13: no use of a quotient in a disequation found")
+
+
+RULES += [r13_exact_quotient]
